@@ -369,8 +369,9 @@ class SgzConverter(SgzReader):
                         outfile.write(new_block)
             self.read_variant_headers(include_padding=True)
             for k, header_array in self.variant_headers.items():
-                outfile.write(header_array.tobytes() +
-                              bytes(self.padded_header_entry_length_bytes - self.header_entry_length_bytes))
+                if self.hw_info.table[k][1] == k:
+                    outfile.write(header_array.tobytes() +
+                                  bytes(self.padded_header_entry_length_bytes - self.header_entry_length_bytes))
 
 
 class NumpyConverter(object):
